@@ -12,12 +12,14 @@ SETS = {'_a_': 'S3_A = {x0&x1, (x0&x1)|x2}',
         '_b_': 'S3_B = {x0&x1, (x0&x1)|x2, x0^x1, x1, x0&(x1->x2)}',
         '_c_': 'S3_C = {x0^x1^x2, maj(x0,x1,x2), x0&!x2, x1|x2}'}
 QUICK = {'gate_bdd3_a_level_down_0', 'bdd3_a_level_down_any', 'bdd3_b_level_down_0', 'bdd3_b_set_var_order_102',
-         'bdd3_b_set_var_order_120', 'bcdd3_b_level_down_0', 'bcdd3_b_set_var_order_120'}
+         'bdd3_b_set_var_order_120', 'bdd4_a_level_down_1'}
 
 def bounded(n):
     kind = 'BCDD (complement edges, real BCDDRules)' if n.startswith('bcdd') else 'simple BDD (real BDDRules)'
     cap = 'reference manager with 16 node slots and 10 entries per level; smallvec stub (inline capacity only)'
-    if 'bdd4' in n:
+    if 'bdd4_e' in n:
+        base = '4 levels, %s, ONE concrete set of 2 live functions {x0&x1, x1^x3} (level 2 EMPTY) built in the initial order, %s; ' % (kind, cap)
+    elif 'bdd4' in n:
         base = '4 levels, %s, ONE concrete set of 3 live functions {(x0&x1)|(x2&x3), x0^x3, x1&(x2|x3)} built in the initial order, %s; ' % (kind, cap)
     else:
         s = [v for k, v in SETS.items() if k in n][0]
@@ -60,7 +62,7 @@ cfg = {
     "assumptions": [
         "ENVIRONMENT: level_swap/level_down/set_var_order_seq are generic in M: Manager; they are checked against the sequential reference manager RefManager (refmgr.rs: fixed slot array, linear per-level tables, reference counting mirroring oxidd-manager-index, no event subscribers, no threads). Nothing is claimed about oxidd-manager-index/-pointer themselves (hash tables, atomics, locks) nor about concurrent level swaps (set_var_order/concurrent_bubble_sort)",
         "STUB: the smallvec crate is replaced (scratch-workspace [patch.crates-io]) by kani/k3_reorder/smallvec_shim: same sequence semantics, fixed inline capacity, panics (= harness failure) instead of spilling to the heap. Reason: CBMC loses all constants that pass through the real SmallVec's MaybeUninit union (measured: one level_swap on 5 nodes -> 18.8 M SAT variables, out of memory at 12 GB). SmallVec's own unsafe code is therefore NOT covered",
-        "real reduction rules: oxidd_rules_bdd::simple::BDDRules / complement_edge::BCDDRules are linked unchanged (path dependency added to the scratch oxidd-reorder/Cargo.toml)",
+        "real reduction rules: oxidd_rules_bdd::simple::BDDRules is linked unchanged (path dependency added to the scratch oxidd-reorder/Cargo.toml). BCDD (complement edges) is NOT covered by Kani: the niche-optimised ReducedOrNew<_, _> with the real EdgeTag defeats CBMC's constant folding (measured, see REPORT.md); the same scenarios run natively for BCDD only",
         "reachability of every individual assertion is not checked (--no-assertion-reach-checks: CBMC emits one full trace per reach-check, 3.9 GB of JSON for the smallest harness); instead every harness / selector branch ends in a kani::cover! that must be SATISFIED",
         "the *_any harnesses dispatch a kani::any() selector to concrete calls; all diagrams are concrete: the result is an exhaustive check of the listed instances, not a proof for all diagrams",
         "stale entries of a *taken* level view are found by their current children (a real hash table may miss them); level_swap never depends on finding such an entry (argued in REPORT.md)",
